@@ -337,6 +337,8 @@ def conflict_cases(acc):
         ('value-equal', {'_value': 1.0}, {'_value': 1.0}, False),
         ('units', {'_default': 1.0 * units.fg, '_units': units.fg},
          {'_default': 1.0 * units.fg, '_units': units.um}, True),
+        ('units-scale', {'_default': 1.0 * units.mm, '_units': units.mm},
+         {'_default': 1.0 * units.mm, '_units': units.m}, True),
         ('units-equal', {'_default': 1.0 * units.fg, '_units': units.fg},
          {'_default': 1.0 * units.fg, '_units': units.fg}, False),
         ('serializer', {'_serializer': 'vmc_ser'},
@@ -443,6 +445,38 @@ def composite_state_cases(acc):
                     'C15.composite', 'initial_state-misplaced',
                     f'Composite.initial_state() = {got_init}, expected the '
                     f'processes\' initial values at {nodes}', case))
+            # an explicit initial state passed to one call must not leak
+            # into later calls on the same Composite
+            try:
+                first = nodes[0]
+                override = {}
+                put(override, first, -77)
+                with_cfg = comp.initial_state({'initial_state': override})
+                again = comp.initial_state()
+                store = comp.generate_store()
+            except Exception as e:  # noqa
+                acc.violate(fw.violation(
+                    'C15.composite', f'raises-{type(e).__name__}',
+                    f'initial_state(config) sequence raised {e!r}', case))
+                continue
+            if get(with_cfg, first) != -77:
+                acc.violate(fw.violation(
+                    'C15.composite', 'explicit-initial-state-ignored',
+                    f'initial_state(config) = {with_cfg}, the explicit '
+                    f'value for {first} is missing', case))
+            if again != got_init:
+                acc.violate(fw.violation(
+                    'C15.composite', 'initial-state-leaks-between-calls',
+                    f'initial_state() returned {again} after a call with '
+                    f'an explicit initial state; before it was {got_init}',
+                    case))
+            if get(probes.pure(store.get_value()), first) != get(
+                    got_init, first):
+                acc.violate(fw.violation(
+                    'C15.composite', 'generate_store-uses-stale-state',
+                    f'generate_store() after initial_state(config) built '
+                    f'{first} = {get(probes.pure(store.get_value()), first)}'
+                    f', expected {get(got_init, first)}', case))
             if got_def != want_def:
                 acc.violate(fw.violation(
                     'C15.composite', 'default_state-misplaced',
